@@ -14,6 +14,16 @@
 //   a = mesh (1..3), b = handle slot (1..4), f = flag, l = integers, name = property name
 //   request|create_shared|create_persistent|create_private|get_property  a b l=[kind,type,def] name
 //   property_exists a l=[kind,type,def] name        (kind 1 V, 2 HE, 3 M, 4 E, 5 F, 6 HF, 7 C; type 1 int, 2 bool)
+//   API flavour (4th list entry of the creation / lookup calls, 2nd of clear_props; absent = 0):
+//     0 the generic templates  request_property<T,ET> create_{shared,persistent,private}_property<T,ET>
+//       get_property<T,ET> property_exists<T,ET> clear_props<ET>
+//     1 the per-kind convenience wrapper of ResourceManager.hh  request_<kind>_property<T>
+//       create_{shared,persistent,private}_<kind>_property<T> get_<kind>_property<T> <kind>_property_exists<T>
+//       clear_<kind>_props()   (the Mesh kind only has request_mesh_property and clear_mesh_props)
+//     2 request: the constructor PropertyPtr<T,ET>(&mesh, name, def); get_property: the per-kind wrapper on a
+//       const mesh; create_private: the generic template on a const mesh
+//     3 get_property: the generic template on a const mesh
+//   every state dump additionally logs n_<kind>_props() ("npw") and the <kind>_props_begin()/end() iteration ("perw")
 //   touch b        every element read and written back through the handle, for every entity index of its mesh
 //   set_shared|set_persistent a b f                 set_name b name
 //   h_copy|h_move b l=[target slot]                 h_drop b
@@ -226,6 +236,40 @@ template <class F> static void with_kt(int kind, int type, F f) {
     else { fprintf(stderr, "bad type %d\n", type); exit(3); }
 }
 
+// ---------------------------------------------------------------- the per-kind convenience API of ResourceManager.hh
+[[noreturn]] static void nowrap(const char *what) { fprintf(stderr, "the Mesh kind has no per-kind wrapper %s\n", what); exit(3); }
+template <class Tag> struct Wrap;
+#define VX_WRAP(TAG, K) \
+template <> struct Wrap<Entity::TAG> { \
+    using E = Entity::TAG; \
+    template <class T> static std::optional<PropertyPtr<T, E>> create_shared(TopologyKernel &m, const std::string &n, const T &d) { return m.create_shared_##K##_property<T>(n, d); } \
+    template <class T> static std::optional<PropertyPtr<T, E>> create_persistent(TopologyKernel &m, const std::string &n, const T &d) { return m.create_persistent_##K##_property<T>(n, d); } \
+    template <class T> static PropertyPtr<T, E> create_private(const TopologyKernel &m, const std::string &n, const T &d) { return m.create_private_##K##_property<T>(n, d); } \
+    template <class T> static std::optional<PropertyPtr<T, E>> get(TopologyKernel &m, const std::string &n) { return m.get_##K##_property<T>(n); } \
+    template <class T> static std::optional<PropertyPtr<T, E>> get_const(const TopologyKernel &m, const std::string &n) { \
+        auto o = m.get_##K##_property<T>(n); if (!o) return {}; return PropertyPtr<T, E>(*o); } \
+    template <class T> static bool exists(const TopologyKernel &m, const std::string &n) { return m.K##_property_exists<T>(n); } \
+    template <class T> static PropertyPtr<T, E> request(TopologyKernel &m, const std::string &n, const T &d) { return m.request_##K##_property<T>(n, d); } \
+    static size_t n_props(const TopologyKernel &m) { return m.n_##K##_props(); } \
+    template <class F> static void each_persistent(const TopologyKernel &m, F f) { for (auto it = m.K##_props_begin(); it != m.K##_props_end(); ++it) f(*it); } \
+    static void clear(TopologyKernel &m) { m.clear_##K##_props(); } \
+};
+VX_WRAP(Vertex, vertex) VX_WRAP(Edge, edge) VX_WRAP(HalfEdge, halfedge) VX_WRAP(Face, face) VX_WRAP(HalfFace, halfface) VX_WRAP(Cell, cell)
+#undef VX_WRAP
+template <> struct Wrap<Entity::Mesh> {
+    using E = Entity::Mesh;
+    template <class T> static std::optional<PropertyPtr<T, E>> create_shared(TopologyKernel &, const std::string &, const T &) { nowrap("create_shared_mesh_property"); }
+    template <class T> static std::optional<PropertyPtr<T, E>> create_persistent(TopologyKernel &, const std::string &, const T &) { nowrap("create_persistent_mesh_property"); }
+    template <class T> static PropertyPtr<T, E> create_private(const TopologyKernel &, const std::string &, const T &) { nowrap("create_private_mesh_property"); }
+    template <class T> static std::optional<PropertyPtr<T, E>> get(TopologyKernel &, const std::string &) { nowrap("get_mesh_property"); }
+    template <class T> static std::optional<PropertyPtr<T, E>> get_const(const TopologyKernel &, const std::string &) { nowrap("get_mesh_property const"); }
+    template <class T> static bool exists(const TopologyKernel &, const std::string &) { nowrap("mesh_property_exists"); }
+    template <class T> static PropertyPtr<T, E> request(TopologyKernel &m, const std::string &n, const T &d) { return m.request_mesh_property<T>(n, d); }
+    static size_t n_props(const TopologyKernel &m) { return m.n_props<E>(); }      // no n_mesh_props()
+    template <class F> static void each_persistent(const TopologyKernel &m, F f) { for (auto it = m.persistent_props_begin<E>(); it != m.persistent_props_end<E>(); ++it) f(*it); }
+    static void clear(TopologyKernel &m) { m.clear_mesh_props(); }
+};
+
 // ---------------------------------------------------------------- the world
 struct World {
     MeshSlot mesh[NMESH];
@@ -271,22 +315,45 @@ static std::string do_call(World &w, const CallRec &c) {
             TopologyKernel &m = w.live(c.a);
             int kind = (int)L(0), type = (int)L(1); long long d = L(2);
             std::string ret;
+            int fl = c.l.size() > 3 ? c.l[3] : 0;
+            auto badfl = [&]() { fprintf(stderr, "op %s: no API flavour %d\n", op.c_str(), fl); exit(3); };
             with_kt(kind, type, [&](auto tval, auto tag) {
                 using T = decltype(tval); using Tag = decltype(tag);
                 T def = (T)d;
-                if (op == "property_exists") { ret = m.property_exists<T, Tag>(c.sarg) ? "true" : "false"; return; }
+                const TopologyKernel &cm = m;
+                if (op == "property_exists") {
+                    bool e = false;
+                    if (fl == 0) e = m.property_exists<T, Tag>(c.sarg); else if (fl == 1) e = Wrap<Tag>::template exists<T>(cm, c.sarg); else badfl();
+                    ret = e ? "true" : "false"; return;
+                }
                 if (op == "request") {
-                    auto p = m.request_property<T, Tag>(c.sarg, def);
+                    if (fl == 2) {
+                        PropertyPtr<T, Tag> p(&m, c.sarg, def);
+                        w.put(c.b, std::unique_ptr<HBase>(new H<T, Tag>(p, kind, type))); ret = "ptr"; return;
+                    }
+                    if (fl != 0 && fl != 1) badfl();
+                    auto p = fl == 0 ? m.request_property<T, Tag>(c.sarg, def) : Wrap<Tag>::template request<T>(m, c.sarg, def);
                     w.put(c.b, std::unique_ptr<HBase>(new H<T, Tag>(p, kind, type))); ret = "ptr"; return;
                 }
                 if (op == "create_private") {
-                    auto p = m.create_private_property<T, Tag>(c.sarg, def);
+                    if (fl < 0 || fl > 2) badfl();
+                    auto p = fl == 0 ? m.create_private_property<T, Tag>(c.sarg, def)
+                           : fl == 1 ? Wrap<Tag>::template create_private<T>(cm, c.sarg, def)
+                                     : cm.create_private_property<T, Tag>(c.sarg, def);
                     w.put(c.b, std::unique_ptr<HBase>(new H<T, Tag>(p, kind, type))); ret = "ptr"; return;
                 }
                 std::optional<PropertyPtr<T, Tag>> o;
-                if (op == "create_shared") o = m.create_shared_property<T, Tag>(c.sarg, def);
-                else if (op == "create_persistent") o = m.create_persistent_property<T, Tag>(c.sarg, def);
-                else o = m.get_property<T, Tag>(c.sarg);
+                if (op == "create_shared") {
+                    if (fl == 0) o = m.create_shared_property<T, Tag>(c.sarg, def); else if (fl == 1) o = Wrap<Tag>::template create_shared<T>(m, c.sarg, def); else badfl();
+                } else if (op == "create_persistent") {
+                    if (fl == 0) o = m.create_persistent_property<T, Tag>(c.sarg, def); else if (fl == 1) o = Wrap<Tag>::template create_persistent<T>(m, c.sarg, def); else badfl();
+                } else {
+                    if (fl == 0) o = m.get_property<T, Tag>(c.sarg);
+                    else if (fl == 1) o = Wrap<Tag>::template get<T>(m, c.sarg);
+                    else if (fl == 2) o = Wrap<Tag>::template get_const<T>(cm, c.sarg);
+                    else if (fl == 3) { auto oc = cm.get_property<T, Tag>(c.sarg); if (oc) o = PropertyPtr<T, Tag>(*oc); }
+                    else badfl();
+                }
                 if (!o) { ret = "nullopt"; return; }
                 w.put(c.b, std::unique_ptr<HBase>(new H<T, Tag>(*o, kind, type))); ret = "some";
             });
@@ -308,7 +375,8 @@ static std::string do_call(World &w, const CallRec &c) {
         if (op == "clear_props") {
             TopologyKernel &m = w.live(c.a);
             int k = (int)L(0);
-            with_kt(k, 1, [&](auto, auto tag) { m.clear_props<decltype(tag)>(); });
+            int fl = c.l.size() > 1 ? c.l[1] : 0;
+            with_kt(k, 1, [&](auto, auto tag) { if (fl == 1) Wrap<decltype(tag)>::clear(m); else m.clear_props<decltype(tag)>(); });
             return "ok";
         }
         if (op == "clear_all_props") { w.live(c.a).clear_all_props(); return "ok"; }
@@ -516,6 +584,14 @@ static void dump_world(Json &j, World &w) {
                 });
             j.kint_arr("fd", fd); j.kint_arr("ex", ex);
             j.kint_arr("trk", trk[i]); j.kint_arr("per", per[i]);
+            // the same through the per-kind convenience API
+            j.key("npw"); j.begin_arr();
+            for (int k = 1; k <= NKIND; ++k) with_kt(k, 1, [&](auto, auto tag) { j.val(Wrap<decltype(tag)>::n_props(m)); });
+            j.end_arr();
+            std::vector<int> perw;
+            for (int k = 1; k <= NKIND; ++k) with_kt(k, 1, [&](auto, auto tag) {
+                Wrap<decltype(tag)>::each_persistent(m, [&](PropertyStorageBase *p) { perw.push_back(w.sto.id_of(p->shared_from_this())); }); });
+            j.kint_arr("perw", perw);
             j.kv("posh", (long long)posh[i]);
             j.key("posv"); j.begin_arr();
             if (w.mesh[i].geometric())
